@@ -7,7 +7,7 @@ import "github.com/markusressel/fan2go/internal/zzv"
 func ZZ_C12_N1_FindClosest() {
 	maxLen := 12
 	if zzv.Thorough() {
-		maxLen = 32
+		maxLen = 16
 	}
 	n := zzv.Choice("len", maxLen) + 1
 	// quick: the property's own domain (keys 0..255, requests -50..305, widened to +-1000);
@@ -15,7 +15,7 @@ func ZZ_C12_N1_FindClosest() {
 	lo, hi, tlo, thi := 0, 255, -1000, 1000
 	if zzv.Thorough() {
 		if zzv.Choice("wide", 2) == 1 {
-			zzv.Assume(n <= 12)
+			zzv.Assume(n <= 8)
 			lo, hi, tlo, thi = -(1 << 31), 1<<31, -(1 << 31), 1<<31
 		}
 	}
@@ -50,7 +50,7 @@ func ZZ_C12_N1_FindClosest() {
 	zzv.Assert(zzv.Implies(t >= arr[n-1], r == arr[n-1]), "N1.clamp_high")
 }
 
-//zzv:bound N1 = real FindClosest: all strictly increasing key lists of length 1..12 (thorough 1..32), keys 0..255 and targets -1000..1000 (thorough additionally keys/targets anywhere in +-2^31, length <= 12): the result is an element, no element is strictly nearer, exact hits are returned, requests beyond either end use that end
+//zzv:bound N1 = real FindClosest: all strictly increasing key lists of length 1..12 (thorough 1..16), keys 0..255 and targets -1000..1000 (thorough additionally keys/targets anywhere in +-2^31, length <= 8; longer lists and wider ranges were tried and run into the 300 s cap): the result is an element, no element is strictly nearer, exact hits are returned, requests beyond either end use that end
 //zzv:bound N2 = real ExtractKeysWithDistinctValues + SortedKeys on maps with 1..5 (thorough 1..8) entries, keys any distinct 0..255 inserted in any order, outputs any 0..255 (constant, single-entry and non-monotonic maps included): the result is exactly the first key of each run of equal outputs in key order, ascending
 //zzv:outside empty maps (outside the property); key lists longer than the bound; outputs equal to -1 (the implementation's sentinel, not a PWM value)
 //zzv:stub sort.Slice inside util.sortSlice is a sorting network over the concrete-length slice
